@@ -51,6 +51,18 @@ Proof. vm_compute. reflexivity. Qed.
 Lemma gen_tmp_dir_not_a_key : valid_key gen_key_len gen_key_ranges gen_tmp_dir_name = false.
 Proof. vm_compute. reflexivity. Qed.
 
+(** ** createTemp: a staging file gets a name of at least 128 random bits
+    from the repository's rand.HexBytes (the model names temp files after the
+    creating call: names never collide) and lies in the directory given (the
+    store's tmp/, never among the objects).  These three facts replace the
+    frozen text of the function: renaming a variable breaks nothing, a
+    shorter or predictable name does. *)
+Definition std_tmp_name_src : string := "rand.HexBytes".
+
+Lemma gen_tmp_name_ok :
+  gen_tmp_name_src = std_tmp_name_src /\ (16 <=? gen_tmp_name_bytes)%N = true /\ gen_tmp_in_dir = true.
+Proof. vm_compute. repeat split. Qed.
+
 (** ** mem: slices are copied on the way in and on the way out *)
 
 Lemma gen_mem_put_copies_ok : gen_mem_put_copies = true.
@@ -77,8 +89,6 @@ Definition frozen_texts : list (list string * list string) :=
      [ "s, err := os.Stat(filename)";
        "if err != nil { if os.IsNotExist(err) { return false, nil } return false, err }";
        "return s.Mode().IsRegular(), nil" ]);
-    (gen_createTemp,
-     [ "tmp := rand.HexBytes(32)"; "return os.Create(filepath.Join(dir, tmp))" ]);
     (gen_newFSObjects,
      [ "tmpDir := filepath.Join(dir, ""tmp"")";
        "if err := os.MkdirAll(tmpDir, 0700); err != nil { return nil, err }";
@@ -116,7 +126,16 @@ Definition frozen_texts : list (list string * list string) :=
     (gen_CreateJSON,
      [ "bs, err := json.Marshal(v)"; "if err != nil { return """", err }";
        "return b.Create(bytes.NewBuffer(bs))" ]);
+    (gen_NewFS,
+     [ "ret, err := newFSObjects(dir)"; "if err != nil { return nil, err }"; "return ret, nil" ]);
+    (gen_notFound, [ "return errcode.NotFoundf(""object %q not found"", k)" ]);
     (gen_Hash, [ "ret := sha256.Sum256(bs)"; "return hex.EncodeToString(ret[:])" ]);
+    (gen_HashStr,
+     [ "h := sha256.New()"; "io.WriteString(h, s)"; "return hex.EncodeToString(h.Sum(nil))" ]);
+    (gen_HashFile,
+     [ "f, err := os.Open(p)"; "if err != nil { return """", err }"; "defer f.Close()";
+       "ret, err := HashReader(f)"; "if err != nil { return """", err }";
+       "if err := f.Close(); err != nil { return """", err }"; "return ret, nil" ]);
     (gen_HashReader,
      [ "h := sha256.New()"; "if _, err := io.Copy(h, r); err != nil { return """", err }";
        "return hex.EncodeToString(h.Sum(nil)), nil" ]);
